@@ -189,6 +189,8 @@ class Framer(tasking.Tasker):
         Force exit if not done
         Called by Razer Actor when razing insular auxes from frame
         """
+        self.store.house.assignRegistries() # ensure Framer.names is houses registry
+
         if not self.done:
             console.profuse("Force exiting '{0}'\n".format(self.name))
             self.exitAll()
